@@ -4,4 +4,16 @@ claimed('C01', 'exploration', 'deterministic simulation: seeded SimRNG-scheduled
         'trusts numpy, the independent oracles in sim/oracles/graph.py, and that bct draws only through the RandomState it is given (checked: other RandomState methods are logged as opaque draws)',
         'DESIGN §5 C01')
 PENDING.update({p: 'claimed by DESIGN.md but its check is still under construction in this session; will move to checks when committed' for p in
-                ('C02', 'C05', 'C06', 'C07', 'C11', 'C13', 'C19', 'C20')})
+                ('C02', 'C05', 'C07', 'C13', 'C19')})
+claimed('C11', 'exploration', 'deterministic simulation: seeded SimRNG-scheduled swap trajectories on bridge-rich inputs, per-swap connectivity/cost/mask monitors, outcome oracles, trace replay',
+        'Seeded search over draw sequences of the four *_connected routines (connected / strongly connected, bridge-rich inputs where most swaps would disconnect), the four latticisers (caller-supplied and default D) and randomize_graph_partial_und (random masks), plus deliberately disconnected / asymmetric inputs that must be rejected with BCTParamError. Verdict on the returned matrices: BFS connectivity, sum(D*R) not increased, no connection in a masked cell. Sampling, not proof.',
+        'trusts numpy and the independent BFS / cost oracles; D symmetric for undirected latticisers; the default D is read from the start hook (ring distance when hooks are absent)',
+        'DESIGN §5 C11')
+claimed('C06', 'exploration', 'deterministic simulation: SimRNG-scheduled four-node picks (incl. forced collisions) and weight-dealing permutations, outcome oracles, trace replay',
+        'Seeded search over the randint(n**4) stream behind the four-node picks and the permutations that deal weights in the null models; the returned network is judged on positive/negative in/out degrees, both weight multisets (exact), empty diagonal, symmetry, and the returned strength correlations against an independent Pearson recomputation. Sampling, not proof.',
+        'trusts numpy and the oracles in scenarios/c06.py (independent of bct); randmio_*_signed inputs have empty diagonals',
+        'DESIGN §5 C06')
+claimed('C20', 'exploration', 'deterministic simulation (thin): SimRNG-decided permutations / uniform matrices / repair-loop indices incl. boundary draws, outcome oracles on the generated matrix',
+        'Seeded sampling of the parameter grid of the seven generators with their draws decided by the SimRNG (boundary permutations, all-low/all-high uniforms, colliding repair indices). For five generators a run is one draw, so simulation adds little over seeds (said in DESIGN); it is substantive for the repair loop of makerandCIJdegreesfixed and the rejection loop of maketoeplitzCIJ. Oracle: shape, 0/1 entries, empty diagonal, exact K, symmetry, degree sequences, ring-band order.',
+        'trusts numpy and the oracles in scenarios/c20.py; feasible K only; BCTParamError is a legal outcome for degreesfixed / toeplitz',
+        'DESIGN §5 C20')
